@@ -118,6 +118,7 @@ def gap_range():
 
 
 # ------------------------------------------------------------------------------------ verifier
+VERIFIER_DECODE = None
 WARNINGS = []      # shapes that were not recognised but are covered by a contract tie (reported in the evidence, not fatal)
 
 
@@ -242,10 +243,18 @@ def parse_verifier():
     # the scan loop
     if "let mut ip = 0; while ip < bytecode.len() { let instr = bytecode[ip]; let opcode_byte = (instr >> 24) as u8; let opcode = OpCode::from_u8(opcode_byte)" not in t:
         raise ExtractError("verifier/bytecode/mod.rs: linear scan header changed")
-    for frag in ["let a = ((instr >> 16) & 0xFF) as usize;", "let b = ((instr >> 8) & 0xFF) as usize;", "let c = (instr & 0xFF) as usize;",
-                 "let imm = (instr & 0xFFFF) as i16;", "if constants_len > u16::MAX as usize {", "if bytecode.len() > u32::MAX as usize {"]:
+    for frag in ["if constants_len > u16::MAX as usize {", "if bytecode.len() > u32::MAX as usize {"]:
         if frag not in t:
-            raise ExtractError(f"verifier/bytecode/mod.rs: operand decoding / size limit changed: {frag!r} missing")
+            raise ExtractError(f"verifier/bytecode/mod.rs: size limit changed: {frag!r} missing")
+    md = re.search(r"let opcode_byte = \(instr >> ([0-9]+)\) as u8;.*?let a = \(\(instr >> ([0-9]+)\) & (0x[0-9A-Fa-f]+)\) as usize; "
+                   r"let b = \(\(instr >> ([0-9]+)\) & (0x[0-9A-Fa-f]+)\) as usize; let c = \(instr & (0x[0-9A-Fa-f]+)\) as usize; "
+                   r"let imm = \(instr & (0x[0-9A-Fa-f]+)\) as i16;", t)
+    if not md:
+        raise ExtractError("verifier/bytecode/mod.rs: operand decoding (opcode_byte, a, b, c, imm) not recognised")
+    global VERIFIER_DECODE
+    VERIFIER_DECODE = (int(md.group(1)), int(md.group(2)), int(md.group(3), 16), int(md.group(4)), int(md.group(5), 16), int(md.group(6), 16), int(md.group(7), 16))
+    if VERIFIER_DECODE[2] != 0xFF or VERIFIER_DECODE[4] != 0xFF or VERIFIER_DECODE[5] != 0xFF or VERIFIER_DECODE[6] != 0xFFFF:
+        raise ExtractError("verifier/bytecode/mod.rs: operand masks are no longer 0xFF / 0xFFFF")
     m = re.search(r"let skip = matches!\( opcode, ((?:OpCode::[A-Za-z0-9]+(?: \| )?)+) \);", t)
     if not m:
         raise ExtractError("verifier/bytecode/mod.rs: `let skip = matches!(opcode, ...)` not found")
@@ -363,6 +372,9 @@ def gen_verifier_table():
            "Inductive chk := CRegA | CRegB | CRegC | CConstB | CConstImm | CUpvalA | CUpvalB | CJump\n"
            "  | CRangeA (n : N) | CRangeBC | CCallArgsA | CCallArgsB | CCacheWords | CMakeClosure.\n",
            f"Definition MAX_FUNCTION_NESTING : N := {max_nesting}.\n",
+           "(* instruction word fields as the verifier decodes them: opcode = word >> op_shift, a = (word >> a_shift) & 0xFF, b = (word >> b_shift) & 0xFF,\n"
+           "   c = word & 0xFF, imm = (word & 0xFFFF) as i16 *)\n"
+           f"Definition op_shift : N := {VERIFIER_DECODE[0]}.\nDefinition a_shift : N := {VERIFIER_DECODE[1]}.\nDefinition b_shift : N := {VERIFIER_DECODE[3]}.\n",
            "(* check_jump also requires the target to be an instruction start of the linear layout (or the end of the stream) *)\n"
            f"Definition jump_grid_checked : bool := {'true' if jump_grid else 'false'}.\n",
            "(* opcodes after which the linear scan skips two cache words *)\n"
@@ -789,6 +801,29 @@ def gen_dispatch_sites():
                "Definition patch_reads : list (N * list N) := [" +
                "; ".join(f"({op}, [{'; '.join(str(off(w) + (3 if s_['writes_after_skip'] and op != 104 else 1)) for w in s_['oldrd'])}])"
                          for op, s_ in sorted(p['sites'].items()) if s_['oldrd']) + "].\n")
+    dec = " ".join(strip_comments(rd("runtime/src/vm/dispatch/decode.rs")).split())
+    runt = " ".join(strip_comments(rd("runtime/src/vm/dispatch/run.rs")).split())
+    m1 = re.search(r"fn decode_abc\(instr: u32\) -> \(u8, u8, u8\) \{ let a = \(\(instr >> ([0-9]+)\) & 0xFF\) as u8; let b = \(\(instr >> ([0-9]+)\) & 0xFF\) as u8; let c = \(instr & 0xFF\) as u8; \(a, b, c\) \}", dec)
+    m2 = re.search(r"fn decode_aimm\(instr: u32\) -> \(u8, i16\) \{ let a = \(\(instr >> ([0-9]+)\) & 0xFF\) as u8; let imm = \(instr & 0xFFFF\) as i16; \(a, imm\) \}", dec)
+    m3 = re.search(r"let opcode_byte = \(instr >> ([0-9]+)\) as u8;", runt)
+    if not (m1 and m2 and m3) or m1.group(1) != m2.group(1):
+        raise ExtractError("dispatch/decode.rs, run.rs: operand decoding of the loop not recognised")
+    out.append("(* instruction word fields as the dispatch loop decodes them *)\n"
+               f"Definition disp_op_shift : N := {m3.group(1)}.\nDefinition disp_a_shift : N := {m1.group(1)}.\nDefinition disp_b_shift : N := {m1.group(2)}.\n")
+    buf = " ".join(strip_comments(rd("bytecode/src/bytecode/buffer.rs")).split())
+    mptr = re.search(r"pub fn as_ptr\(&self\) -> \*const u32 \{ (.*?) \}", buf)
+    if not mptr:
+        raise ExtractError("bytecode/buffer.rs: as_ptr not found")
+    body = mptr.group(1)
+    mh = re.fullmatch(r"self\.(\w+)\(\) as \*const u32", body)
+    if mh:
+        mw = re.search(r"fn %s\(&self\) -> \*mut u32 \{ (.*?) \} (?://|#|pub|fn)" % mh.group(1), buf)
+        body = mw.group(1) if mw else body
+    # the pointer the loop patches through must not come from a `&[u32]` / `&Box` (read-only provenance) nor from a fresh `&mut`
+    writable = ("&raw mut **self.0.get()" in body or "addr_of_mut!(**self.0.get())" in body) and "&*self.0.get()" not in body and "&mut *self.0.get()" not in body
+    out.append("(* BytecodeBuffer::as_ptr hands out a pointer taken from the place of the boxed slice (may be written through, does not\n"
+               "   invalidate earlier ones) rather than one derived from a shared or a fresh unique reference *)\n"
+               f"Definition code_ptr_writable : bool := {B(writable)}.\n")
     cp = parse_cache_protocol()
     out.append("(* call-site cache protocol (runtime/src/vm/globals, gc.rs, call_global*.inc) *)\n"
                f"Definition stores_flush_cache : bool := {B(cp['stores_flush'])}.   (* the only writes of a new value to globals / globals_by_index are set_global and set_global_by_index, and both clear call_site_cache *)\n"
